@@ -536,6 +536,9 @@ func runRouting(c *Ctx, prop string) {
 		}
 	}
 	runLexerCases(c, prop)
+	if prop == "C02" { // the registered set after a deletion: rules of the methods that stay keep matching
+		trieDel(c, "C02")
+	}
 }
 
 // literalBeats: a and b are identical up to some top-level segment and a then has a literal
